@@ -824,6 +824,21 @@ def _run_X(res, spec, only_case=None):
                     except Exception as ex:
                         obs = _exc_tag(ex)
                     report(mode + "/override", a, T, obs, ref, "override", dict(kind="override", prefix=j, subset=list(S)))
+        # ---------------------------- S6: the arguments given as a mapping {argument name: value}, keys written in every order
+        anames = getattr(spec["cls"], "argument_names", None)
+        if anames and len(anames) == nargs and "..." not in anames and nargs >= 2:
+            perms = list(itertools.permutations(range(nargs))) if nargs <= 3 else [tuple(range(k, nargs)) + tuple(range(k)) for k in range(nargs)] + [tuple(range(nargs))[::-1]]
+            for perm in perms:
+                res.transitions += 1
+                res.symbols["X:mapping-args"] += 1
+                try:
+                    from collections import OrderedDict as _OD
+
+                    obj = spec["cls"](_OD((anames[i], a[i]) for i in perm))
+                    obs = _x_eval(spec, obj, T, "math", order)
+                except Exception as ex:
+                    obs = _exc_tag(ex)
+                report("math/mapping-args", a, T, obs, refs[T], "arguments-by-name", dict(kind="mapping", perm=list(perm)))
         # all arguments supplied late through unique keys only (args=None)
         if spec["nargs_fixed"]:
             res.transitions += 1
